@@ -351,7 +351,12 @@ class GreedySpan:
             o_inputs = [inputs[i] for i in o_nodes]
             o_ssa_path = ssa_greedy_optimize(o_inputs, output, size_dict)
             seq = []
-            for pi, pj in o_ssa_path:
+            for con in o_ssa_path:
+                if len(con) == 1:
+                    # single term simplification -> same node, new ssa id
+                    o_nodes.append(o_nodes[con[0]])
+                    continue
+                pi, pj = con
                 merges[o_nodes[pi]] = o_nodes[pj]
                 seq.append((o_nodes[pi], o_nodes[pj]))
                 o_nodes.append(o_nodes[pj])
